@@ -585,10 +585,26 @@ SEEDED = [
     ("r4-C15-1", "C15", "R1"), ("r4-C15-2", "C15", "SH5"),
     ("r4-C19-1", "C19", "DER1"), ("r4-C20-1", "C20", "C2"),
     ("r4-C20-2", "C20", "K2"),
+    # round 5 (unsteered): 5 of 36 caught when first evaluated
+    ("r5-C01-1", "C01", "HOM1"), ("r5-C01-2", "C01", "I1"),
+    ("r5-C03-1", "C03", "TS1"), ("r5-C04-1", "C04", "SH5"),
+    ("r5-C04-2", "C04", "C2"), ("r5-C05-1", "C05", "INV"),
+    ("r5-C05-2", "C05", "SYM1"), ("r5-C06-1", "C06", "LK1"),
+    ("r5-C06-2", "C06", "C2"), ("r5-C09-1", "C09", "ACC1"),
+    ("r5-C11-1", "C11", "P1g"), ("r5-C11-2", "C11", "FR2"),
+    ("r5-C12-1", "C12", "HOM1"), ("r5-C12-2", "C12", "NP2"),
+    ("r5-C13-1", "C13", "AR1"), ("r5-C13-2", "C13", "LK1"),
+    ("r5-C14-1", "C14", "LK1"), ("r5-C14-2", "C14", "X2"),
+    ("r5-C15-1", "C15", "HOM1"), ("r5-C15-2", "C15", "FLIP1"),
+    ("r5-C16-2", "C16", "SVD1"), ("r5-C17-2", "C17", "STK1"),
+    ("r5-C18-1", "C18", "PA1"), ("r5-C19-1", "C19", "NAN1"),
+    ("r5-C19-2", "C19", "C2"), ("r5-C20-1", "C20", "HOM1"),
+    ("r5-C20-2", "C20", "P1q"),
 ]
 # seeded changes no static rule here decides (numerical / heuristic):
 # C14-1, C15-1, C15-2, C19-1, C20-2, r2-C12-2, r2-C14-1, r2-C15-2, r2-C19-1,
-# r2-C20-2 -- see DESIGN.md section 6.2
+# r2-C20-2, r5-C03-2, r5-C08-1, r5-C08-2, r5-C09-2, r5-C10-1, r5-C10-2,
+# r5-C16-1, r5-C17-1, r5-C18-2 -- see DESIGN.md section 6.2
 
 # behaviour-preserving edits: every listed property must stay silent (exit 0)
 NEUTRAL = [
